@@ -373,9 +373,10 @@ pub fn good_string(a: &[u32]) -> bool {
 pub fn smt_char_as_string(x: u32) -> String {
     if x == '"' as u32 {
         "\"\"".to_string()
-    } else if x >= 32 && x < 127 {
+    } else if x >= 32 && x < 127 && x != '\\' as u32 {
         char::from_u32(x).unwrap().to_string()
-    } else if x < 32 || x == 127 {
+    } else if x < 128 {
+        // control characters, DEL, and backslash (a raw backslash could start an escape sequence)
         format!("\\u{{{:02x}}}", x)
     } else if x < 0x10000 {
         format!("\\u{:04x}", x)
@@ -393,9 +394,10 @@ impl fmt::Display for SmtString {
         for &x in self.s.iter() {
             if x == '"' as u32 {
                 write!(f, "\"\"")?;
-            } else if x >= 32 && x < 127 {
+            } else if x >= 32 && x < 127 && x != '\\' as u32 {
                 write!(f, "{}", char::from_u32(x).unwrap())?;
-            } else if x < 32 || x == 127 {
+            } else if x < 128 {
+                // control characters, DEL, and backslash (a raw backslash could start an escape sequence)
                 write!(f, "\\u{{{:02x}}}", x)?;
             } else if x < 0x10000 {
                 write!(f, "\\u{:04x}", x)?;
@@ -421,9 +423,10 @@ impl fmt::Display for SmtString {
 pub fn char_to_smt(x: u32) -> String {
     if x == '"' as u32 {
         "\"\"".to_string()
-    } else if x >= 32 && x < 127 {
+    } else if x >= 32 && x < 127 && x != '\\' as u32 {
         char::from_u32(x).unwrap().to_string()
-    } else if x < 32 || x == 127 {
+    } else if x < 128 {
+        // control characters, DEL, and backslash (a raw backslash could start an escape sequence)
         format!("\\u{{{:02x}}}", x)
     } else if x < 0x10000 {
         format!("\\u{:04x}", x)
